@@ -11,6 +11,7 @@ import (
 	slipelliptic "github.com/wollac/iota-crypto-demo/pkg/slip10/elliptic"
 	"pgregory.net/rapid"
 
+	"verifharness/fc"
 	"verifharness/h"
 	ref "verifharness/ref/secp"
 )
@@ -22,6 +23,7 @@ var K = ref.K1
 var copies = map[string]stdelliptic.Curve{}
 
 func TestMain(m *testing.M) {
+	h.FirstCallsChild(fc.Secp256k1()) // never returns in a first-call child process
 	if err := K.SelfCheck(); err != nil {
 		fmt.Println("VERIF-INFRA reference self-check failed:", err)
 		panic(err)
@@ -614,3 +616,6 @@ func (s scalar) str() string { return string(s) }
 func FuzzGenOps(f *testing.F) {
 	h.FuzzSub(f, h.Sub[opCase]{Prop: "C17", Name: "group-ops", Gen: genOp, Check: checkOp})
 }
+
+// which public entry point is called first in a process (and by how many goroutines at once)
+func TestFirstCalls(t *testing.T) { h.FirstCallsSub(t, "C17", fc.Secp256k1(), 6) }
